@@ -156,6 +156,24 @@ func runBatch(t *testing.T, rc *RunCtx, prop string) {
 	var desc []string
 	nontrivial := false
 	for r := 0; r < rounds && len(rc.Viol) == 0; r++ {
+		if r > 0 && ch.Pick(4, 0) == 3 {
+			// Clean restart of both instances between rounds: the next requests are the first after start-up.
+			w.s.Direct(func() {
+				for _, pi := range []**Instance{&w.a, &w.b} {
+					if *pi == nil {
+						continue
+					}
+					old := *pi
+					old.Close()
+					ni, err := NewInstance(w.s, old.Name, old.Cfg)
+					if err != nil {
+						t.Fatalf("restart: %v", err)
+					}
+					*pi = ni
+				}
+			})
+			rc.Stats.Inc("clean_restarts", 1)
+		}
 		n := drawBatchSize(rc)
 		keys := pickKeys(rc, len(w.pop.Accts), n)
 		kind := "atts"
